@@ -194,3 +194,154 @@ Fixpoint slots_ok (kws : list nat) (formals : list formal) (n : nat) : bool :=
       | ARG_STAR2 => (n =? 0) && slots_ok kws rest 0
       end
   end.
+
+(* ================================================================== star actuals ==================
+   Calls whose positional part mixes plain positionals with `*tuple` actuals of KNOWN length and whose
+   keyword part mixes explicit keywords with `**TypedDict` actuals (all keys listed; whether a key is
+   Required or NotRequired is a run-time matter, mypy maps both alike).  `**dict` of unknown keys and
+   `*iterable` of unknown length are indeterminate and not represented.  Source order: positional part,
+   then keyword part (a star tuple written after a keyword binds the same way). *)
+
+Inductive pitem := PPos | PStar (len : nat).
+Inductive kitem := KName (n : nat) | KTD (keys : list nat).
+Record call_s := mkCallS { pitems : list pitem; kitems : list kitem }.
+
+(* an entry of formal_to_actual: the actual's index in the call and what it is
+   (ARG_POS; one item of an ARG_STAR tuple; ARG_NAMED; one key of an ARG_STAR2 TypedDict) *)
+Inductive actual_s := SPos (i : nat) | SStarItem (i : nat) | SKw (i : nat) (name : nat) | STDKey (i : nat) (name : nat).
+Definition idx (a : actual_s) : nat := match a with SPos i | SStarItem i | SKw i _ | STDKey i _ => i end.
+
+(* the values the positional part supplies, in order: `for _ in range(len(actualt.items))` *)
+Fixpoint flatten (ai : nat) (ps : list pitem) : list actual_s :=
+  match ps with
+  | [] => []
+  | PPos :: r => SPos ai :: flatten (S ai) r
+  | PStar n :: r => repeat (SStarItem ai) n ++ flatten (S ai) r
+  end.
+
+(* ARG_POS and ARG_STAR(TupleType) branches: a value goes to formal fi and fi advances unless the formal
+   is *args (takes everything, fi stays) or **kwargs (`break` / nothing mapped, fi stays) *)
+Fixpoint map_pos_s (formals : list formal) (flat : list actual_s) : list (list actual_s) :=
+  match formals with
+  | [] => []
+  | f :: rest =>
+      match flat with
+      | [] => [] :: map_pos_s rest []
+      | h :: t =>
+          match fkind f with
+          | ARG_STAR => flat :: map_pos_s rest []
+          | ARG_STAR2 => [] :: map_pos_s rest []
+          | _ => [h] :: map_pos_s rest t
+          end
+      end
+  end.
+Fixpoint leftover_s (formals : list formal) (flat : list actual_s) : list actual_s :=
+  match formals with
+  | [] => flat
+  | f :: rest =>
+      match flat with
+      | [] => []
+      | h :: t => match fkind f with ARG_STAR => [] | ARG_STAR2 => flat | _ => leftover_s rest t end
+      end
+  end.
+
+Fixpoint kw_entries (ai : nat) (ks : list kitem) : list actual_s :=
+  match ks with
+  | [] => []
+  | KName n :: r => SKw ai n :: kw_entries (S ai) r
+  | KTD keys :: r => map (STDKey ai) keys ++ kw_entries (S ai) r
+  end.
+
+(* `name in formal_names` (any kind: the TypedDict branch does not exclude *args) *)
+Definition name_in (formals : list formal) (k : nat) : bool := existsb (fun f => named_by f k) formals.
+
+(* does keyword-ish entry a land on formal f *)
+Definition entry_for (all : list formal) (f : formal) (a : actual_s) : bool :=
+  match a with
+  | SKw _ k =>
+      match fkind f with
+      | ARG_STAR => false
+      | ARG_STAR2 => named_by f k || negb (name_matched all k)
+      | _ => named_by f k
+      end
+  | STDKey _ k =>
+      match fkind f with
+      | ARG_STAR2 => named_by f k || negb (name_in all k)
+      | _ => named_by f k
+      end
+  | _ => false
+  end.
+
+Fixpoint attach_s (all : list formal) (kwa : list actual_s) (formals : list formal) (pm : list (list actual_s)) : list (list actual_s) :=
+  match formals, pm with
+  | f :: fr, p :: pr => (p ++ filter (entry_for all f) kwa) :: attach_s all kwa fr pr
+  | _, _ => []
+  end.
+
+Definition map_actuals_to_formals_s (formals : list formal) (c : call_s) : list (list actual_s) :=
+  attach_s formals (kw_entries (length (pitems c)) (kitems c)) formals (map_pos_s formals (flatten 0 (pitems c))).
+
+(* is_duplicate_mapping: more than one actual, unless exactly [*tuple item, **TypedDict key] *)
+Definition exempt_pair (m : list actual_s) : bool :=
+  match m with [SStarItem _; STDKey _ _] => true | _ => false end.
+Definition is_duplicate_mapping (m : list actual_s) : bool := (1 <? length m) && negb (exempt_pair m).
+(* actual_kinds[mapped_args[0]] not in [ARG_NAMED, ARG_STAR2] *)
+Definition first_positional_s (m : list actual_s) : bool :=
+  match m with SPos _ :: _ | SStarItem _ :: _ => true | _ => false end.
+
+Definition check_formal_s (unexpected : bool) (f : formal) (mapped : list actual_s) : bool :=
+  if is_required (fkind f) && null mapped && negb unexpected then false
+  else if negb (is_star (fkind f)) && is_duplicate_mapping mapped then false
+  else if is_named (fkind f) && negb (null mapped) && first_positional_s mapped then false
+  else true.
+
+(* check_for_extra_actual_arguments, positional part: a plain positional mapped nowhere; a non-empty tuple
+   mapped nowhere; a tuple with unmapped items when the callee has no *args *)
+Definition extra_positional (formals : list formal) (flat : list actual_s) : bool :=
+  let mapped := concat (map_pos_s formals flat) in
+  existsb (fun a => match a with
+                    | SPos _ => true
+                    | SStarItem i => negb (has_kind is_star1 formals) || negb (existsb (fun b => idx b =? i) mapped)
+                    | _ => false
+                    end) (leftover_s formals flat).
+(* keyword part: an explicit keyword mapped nowhere (unexpected keyword argument); a TypedDict with fewer
+   mapped keys than items (Extra argument from **args): both set is_unexpected_arg_error *)
+Definition unexpected_s (formals : list formal) (kwa : list actual_s) : bool :=
+  existsb (fun a => match a with
+                    | SKw _ k => negb (name_matched formals k || has_kind is_star2 formals)
+                    | STDKey _ k => negb (name_in formals k || has_kind is_star2 formals)
+                    | _ => false
+                    end) kwa.
+
+Definition mypy_accepts_s (formals : list formal) (c : call_s) : bool :=
+  let flat := flatten 0 (pitems c) in
+  let kwa := kw_entries (length (pitems c)) (kitems c) in
+  let un := unexpected_s formals kwa in
+  negb (extra_positional formals flat) && negb un
+  && forallb2 (check_formal_s un) formals (map_actuals_to_formals_s formals c).
+
+(* CPython: the call site expands star actuals (a repeated keyword while merging is a TypeError
+   "got multiple values for keyword argument"), then binds as before *)
+Fixpoint npos_of (ps : list pitem) : nat :=
+  match ps with [] => 0 | PPos :: r => S (npos_of r) | PStar n :: r => n + npos_of r end.
+Fixpoint kws_of (ks : list kitem) : list nat :=
+  match ks with [] => [] | KName n :: r => n :: kws_of r | KTD keys :: r => keys ++ kws_of r end.
+Fixpoint has_dup_kw (l : list nat) : bool :=
+  match l with [] => false | x :: t => existsb (Nat.eqb x) t || has_dup_kw t end.
+Definition expand (c : call_s) : call := mkCall (npos_of (pitems c)) (kws_of (kitems c)).
+Definition cpython_bind_s (formals : list formal) (c : call_s) : bind_result :=
+  if has_dup_kw (kws_of (kitems c)) then TypeError else cpython_bind formals (expand c).
+
+(* the three places where mypy is more lenient than the expanded call (each refuted separately):
+   L1 a TypedDict key named like the *args parameter (and no **kwargs);
+   L2 a *tuple item and a **TypedDict key for the same parameter (exempt_pair);
+   L3 a keyword supplied twice after expansion *)
+Definition tdkeys_of (ks : list kitem) : list nat :=
+  flat_map (fun k => match k with KTD keys => keys | KName _ => [] end) ks.
+Definition no_L1 (formals : list formal) (c : call_s) : bool :=
+  has_kind is_star2 formals
+  || forallb (fun k => negb (existsb (fun f => named_by f k && is_star1 (fkind f)) formals)) (tdkeys_of (kitems c)).
+Definition no_L2 (formals : list formal) (c : call_s) : bool :=
+  forallb2 (fun f m => is_star (fkind f) || negb (exempt_pair m)) formals (map_actuals_to_formals_s formals c).
+Definition no_L3 (c : call_s) : bool := negb (has_dup_kw (kws_of (kitems c))).
+Definition plain_like (formals : list formal) (c : call_s) : bool := no_L1 formals c && no_L2 formals c && no_L3 c.
